@@ -20,6 +20,7 @@ RULE = ("edge lists produced by gcmpy's own fast and custom generators on random
         "plus all-zero jds, single-vertex jds, size-1 motifs without edges and sequences with leftover stubs (a vertex that owns stubs but receives no edge); each is converted to a network, back, and forth again; non-trivial = (a zero-degree "
         "vertex or a repeated pair or a self-loop) and >= 2 edges; distinct = SHA-1 of the concrete edge list")
 RULE += ("; rounds k-l added: " + 'edge lists with pairs written as lists (callbacks returning their own argument list), names that are str-Enum members, topologies sharing a name')
+RULE += '; round m: one edge list with more than 2**20 entries per quick run (180 000 vertices in 2-cliques and triangles)'
 ASSUMPTIONS = ["nothing is demanded about which row wins for a repeated pair", "names/ids compared by equality"]
 HEADLINE = ["edge_lists", "forward_conversions", "reverse_conversions", "round_trips", "with_zero_degree", "with_repeated_pair", "with_self_loop",
             "all_zero_jds", "single_vertex", "vertex_with_stubs_but_no_edge", "leftover_stub_sequences", "unique_pair_attrs_checked", "exact_round_trip_checked", "input_graph_mutation_events"]
